@@ -17,6 +17,7 @@ import (
 	"io"
 	"log"
 	"os"
+	"sort"
 	"strings"
 	"time"
 
@@ -45,6 +46,7 @@ type ev struct {
 	Start uint64   `json:"start,omitempty"`
 	BMs   []uint64 `json:"bms,omitempty"`
 	Ls    []uint64 `json:"ls,omitempty"` // lmmerge: target then merged bodies; cleave: body then supervoxels
+	// splitsv: Ls = supervoxel, split label, remain label (0 = the server allocates it); renumber: Ls = new, old
 	// index: Ls = body label then its supervoxels; indices: one [body label, supervoxels...] per entry
 	Batch [][]uint64 `json:"batch,omitempty"`
 }
@@ -99,7 +101,12 @@ func robust(run *lib.Run, c jcase, f func(jcase) outcome) {
 		outs = append(outs, o)
 	}
 	if len(outs) == 0 {
-		fmt.Fprintln(os.Stderr, "c12: no execution of a history completed")
+		last := ""
+		if len(run.Notes) > 0 {
+			last = run.Notes[len(run.Notes)-1]
+		}
+		b, _ := json.Marshal(c)
+		fmt.Fprintf(os.Stderr, "c12: no execution of a history completed (%s): %s\n", last, b)
 		os.Exit(3)
 	}
 	if pick == nil {
@@ -275,6 +282,21 @@ func solidBlocks(bms []uint64, z0 int32) []byte {
 	return buf.Bytes()
 }
 
+// sparse volume: the first `rows` rows (y) of the lowest z slice of the solid block at (bx, 0, bz)
+func sparseRows(bx, bz int32, rows int) []byte {
+	var buf bytes.Buffer
+	buf.Write([]byte{0, 3, 0, 0})
+	binary.Write(&buf, binary.LittleEndian, uint32(0))
+	binary.Write(&buf, binary.LittleEndian, uint32(rows))
+	for y := 0; y < rows; y++ {
+		binary.Write(&buf, binary.LittleEndian, bx*64)
+		binary.Write(&buf, binary.LittleEndian, int32(y))
+		binary.Write(&buf, binary.LittleEndian, bz*64)
+		binary.Write(&buf, binary.LittleEndian, int32(64))
+	}
+	return buf.Bytes()
+}
+
 type rng2 struct{ B, E uint64 }
 
 func nextLabel(p *dvh.Proc, root string, n uint64) (rng2, int, bool) {
@@ -309,7 +331,8 @@ func runLabels(c jcase) outcome {
 	var lev, obs []string
 	up := true
 	z := int32(0)
-	cur, curV := root, 1 // uuid and version id of the current version
+	blkOf := map[uint64][2]int32{} // ingested supervoxel -> block x index, block z index
+	cur, curV := root, 1           // uuid and version id of the current version
 	leaf := func() (string, int) {
 		_, body, _ := p.Get("/api/repos/info")
 		var infos map[string]struct {
@@ -330,6 +353,15 @@ func runLabels(c jcase) outcome {
 			}
 		}
 		return u, v
+	}
+	// a request that was refused may have drawn labels before it failed: they are allocations (handed to
+	// nobody), seen as the advance of GET nextlabel
+	consumed := func(before uint64) {
+		after := peekNext(p, cur)
+		for l := before; before != 0 && l < after; l++ {
+			lev = append(lev, fmt.Sprintf("LAlloc %d 1", curV))
+			obs = append(obs, fmt.Sprintf("Some (%d, %d)", l, l))
+		}
 	}
 	for _, e := range c.Evs {
 		switch e.K {
@@ -378,6 +410,9 @@ func runLabels(c jcase) outcome {
 				mx = maxU(mx, b)
 			}
 			st, body, alive := p.Post("/api/node/"+cur+"/lm/blocks", solidBlocks(e.BMs, z))
+			for i, b := range e.BMs {
+				blkOf[b] = [2]int32{int32(i), z}
+			}
 			z++
 			if !alive || st != 200 {
 				fatal("POST blocks: %d %s %s", st, body, p.Stderr)
@@ -438,6 +473,56 @@ func runLabels(c jcase) outcome {
 					lev = append(lev, fmt.Sprintf("LSetMax %d %d", curV, mx))
 				}
 			}
+		case "splitsv":
+			// split of an ingested supervoxel; the CALLER may choose the split label, the remain label,
+			// both or neither: a chosen label is a label of the volume from then on, the others are allocated
+			if !up || len(e.Ls) != 3 {
+				continue
+			}
+			bc, ok := blkOf[e.Ls[0]]
+			if !ok {
+				continue
+			}
+			url := fmt.Sprintf("/api/node/%s/lm/split-supervoxel/%d", cur, e.Ls[0])
+			sep := "?"
+			if e.Ls[1] != 0 {
+				url += fmt.Sprintf("%ssplit=%d", sep, e.Ls[1])
+				sep = "&"
+			}
+			if e.Ls[2] != 0 {
+				url += fmt.Sprintf("%sremain=%d", sep, e.Ls[2])
+			}
+			before := peekNext(p, cur)
+			st, body, alive := p.Post(url, sparseRows(bc[0], bc[1], 4))
+			if !alive {
+				fatal("child died in split-supervoxel: %s", p.Stderr)
+			}
+			if st == 200 {
+				var r struct{ SplitSupervoxel, RemainSupervoxel uint64 }
+				json.Unmarshal(body, &r)
+				for k, got := range []uint64{r.SplitSupervoxel, r.RemainSupervoxel} {
+					if e.Ls[1+k] != 0 {
+						if got != e.Ls[1+k] {
+							fatal("split-supervoxel %v answered %s", e.Ls, body)
+						}
+						lev = append(lev, fmt.Sprintf("LSetMax %d %d", curV, got))
+					} else {
+						lev = append(lev, fmt.Sprintf("LAlloc %d 1", curV))
+						obs = append(obs, fmt.Sprintf("Some (%d, %d)", got, got))
+					}
+				}
+				delete(blkOf, e.Ls[0])
+			} else {
+				consumed(before)
+			}
+		case "renumber":
+			// a body takes a label chosen by the caller
+			if !up || len(e.Ls) != 2 {
+				continue
+			}
+			if st, _, _ := p.PostJSON("/api/node/"+cur+"/lm/renumber", e.Ls); st == 200 {
+				lev = append(lev, fmt.Sprintf("LSetMax %d %d", curV, e.Ls[0]))
+			}
 		case "newchild":
 			if !up {
 				continue
@@ -457,6 +542,7 @@ func runLabels(c jcase) outcome {
 			if !up || len(e.Ls) < 2 {
 				continue
 			}
+			before := peekNext(p, cur)
 			st, body, _ := p.PostJSON(fmt.Sprintf("/api/node/%s/lm/cleave/%d", cur, e.Ls[0]), e.Ls[1:])
 			if st == 200 {
 				var r struct{ CleavedLabel uint64 }
@@ -464,6 +550,8 @@ func runLabels(c jcase) outcome {
 				// the cleaved body gets a new label (an allocation), then both indices are stored
 				lev = append(lev, fmt.Sprintf("LAlloc %d 1", curV), fmt.Sprintf("LSetMax %d %d", curV, r.CleavedLabel), fmt.Sprintf("LSetMax %d %d", curV, e.Ls[0]))
 				obs = append(obs, fmt.Sprintf("Some (%d, %d)", r.CleavedLabel, r.CleavedLabel))
+			} else {
+				consumed(before)
 			}
 		case "crash":
 			if up {
@@ -550,27 +638,35 @@ func runIDs(c jcase) outcome {
 		return m
 	}
 	var vids, iids []uint64
-	seenV := map[uint64]bool{}
+	// a (uuid, version id) / (repo, instance name, instance id) pair seen for the first time is an id that was
+	// issued since the last look: a version id given to a SECOND uuid, or an instance id given to a second
+	// instance, is appended again and breaks the strict increase
+	seenV := map[string]bool{}
 	seenI := map[string]bool{}
 	nrepo, ndata := 0, 0
 	collect := func() {
-		// acknowledged ids become visible in repos/info; collect them in issue order (ascending
-		// discovery after each acknowledged request)
+		var nv, ni []uint64
 		for _, ri := range view() {
 			for _, n := range ri.DAG.Nodes {
-				if !seenV[n.VersionID] {
-					seenV[n.VersionID] = true
-					vids = append(vids, n.VersionID)
+				k := fmt.Sprintf("%s=%d", n.UUID, n.VersionID)
+				if !seenV[k] {
+					seenV[k] = true
+					nv = append(nv, n.VersionID)
 				}
 			}
 			for name := range ri.DataInstances {
-				if !seenI[ri.Root+name] {
-					seenI[ri.Root+name] = true
-					r, _ := p.Call("iid", ri.Root, name)
-					iids = append(iids, r.N)
+				r, _ := p.Call("iid", ri.Root, name)
+				k := fmt.Sprintf("%s/%s=%d", ri.Root, name, r.N)
+				if !seenI[k] {
+					seenI[k] = true
+					ni = append(ni, r.N)
 				}
 			}
 		}
+		// ids issued by one request (a received repo gets several) are issued in ascending order
+		sort.Slice(nv, func(a, b int) bool { return nv[a] < nv[b] })
+		sort.Slice(ni, func(a, b int) bool { return ni[a] < ni[b] })
+		vids, iids = append(vids, nv...), append(iids, ni...)
 	}
 	do := func(kind string) bool {
 		v := view()
@@ -655,6 +751,50 @@ func runIDs(c jcase) outcome {
 				up = false
 				trace = append(trace, "kill")
 			}
+		case "quit":
+			if up {
+				p.Quit()
+				up = false
+				trace = append(trace, "quit")
+			}
+		case "receive":
+			// the repo with the most versions not above N (N = 0: any) is taken through the receiving end of a
+			// push: new repo id, instance ids and version ids, the latter handed out in a rotated uuid order.
+			// Its versions resolve again after the next start: the history restarts next.
+			if !up {
+				continue
+			}
+			var best repoInfo
+			for _, ri := range view() {
+				k := len(ri.DAG.Nodes)
+				if (e.N == 0 || uint64(k) <= e.N) && (best.Root == "" || k > len(best.DAG.Nodes) || (k == len(best.DAG.Nodes) && ri.Alias < best.Alias)) {
+					best = ri
+				}
+			}
+			if best.Root == "" {
+				continue
+			}
+			type uv struct {
+				u string
+				v uint64
+			}
+			var us []uv
+			for _, n := range best.DAG.Nodes {
+				us = append(us, uv{n.UUID, n.VersionID})
+			}
+			sort.Slice(us, func(a, b int) bool { return us[a].v < us[b].v })
+			var order []string
+			for i := range us {
+				order = append(order, us[(i+e.W)%len(us)].u)
+			}
+			if r, alive := p.Call("receive", best.Root, strings.Join(order, ",")); !alive {
+				fatal("child died in receive: %s", p.Stderr)
+			} else if r.S != 200 {
+				// (seen only when ids had already been issued twice: the ids list shows that)
+				trace = append(trace, "receive-refused")
+				continue
+			}
+			trace = append(trace, fmt.Sprintf("receive(%d versions)", len(us)))
 		case "deldata":
 			// delete the newest instance that still exists (its id must never be handed out again)
 			if !up {
@@ -677,7 +817,6 @@ func runIDs(c jcase) outcome {
 					}
 					time.Sleep(5 * time.Millisecond)
 				}
-				delete(seenI, root+name)
 				trace = append(trace, "deldata")
 			}
 		case "restart":
@@ -735,6 +874,7 @@ func genLabels(rng *lib.Rand) jcase {
 	// bodies and their supervoxels as the history believes them to be (linear chain: inherited)
 	bodies := map[uint64][]uint64{}
 	var order []uint64
+	var unsplit []uint64 // ingested supervoxels that were not split yet
 	ingest := func(k int) {
 		var bms []uint64
 		for j := 0; j < k; j++ {
@@ -742,8 +882,32 @@ func genLabels(rng *lib.Rand) jcase {
 			bms = append(bms, top)
 			bodies[top] = []uint64{top}
 			order = append(order, top)
+			unsplit = append(unsplit, top)
 		}
 		c.Evs = append(c.Evs, ev{K: "ingest", BMs: bms})
+	}
+	// a label for the caller to choose: above everything ingested, posted or allocated so far
+	// (alloc keeps an upper bound of what the server can have handed out)
+	chosen := func() uint64 {
+		bound := top
+		var handed uint64
+		for _, e := range c.Evs {
+			switch e.K {
+			case "alloc", "alloccrash":
+				handed += e.N
+			case "cleave":
+				handed++
+			case "splitsv":
+				handed += 2
+			case "setmax":
+				bound = maxU(bound, e.N)
+			}
+			for _, l := range e.Ls {
+				bound = maxU(bound, l)
+			}
+		}
+		top = bound + handed + uint64(1+rng.Intn(40))
+		return top
 	}
 	ingest(3 + rng.Intn(3))
 	live := func() []uint64 {
@@ -756,7 +920,47 @@ func genLabels(rng *lib.Rand) jcase {
 		return out
 	}
 	for i := 0; i < n; i++ {
-		switch rng.Intn(12) {
+		switch rng.Intn(15) {
+		case 12, 13:
+			// every way a caller can bring its own labels into a split, then allocations
+			if len(unsplit) > 0 {
+				k := rng.Intn(len(unsplit))
+				sv := unsplit[k]
+				unsplit = append(unsplit[:k], unsplit[k+1:]...)
+				var sp, rm uint64
+				switch rng.Intn(4) {
+				case 0:
+					sp = chosen()
+				case 1:
+					rm = chosen()
+				case 2:
+					sp, rm = chosen(), chosen()
+					if rng.Bool() {
+						sp, rm = rm, sp // the larger one is not always the remain label
+					}
+				}
+				c.Evs = append(c.Evs, ev{K: "splitsv", Ls: []uint64{sv, sp, rm}})
+				for b, svs := range bodies { // the supervoxel is gone (its two parts have labels the history does not know)
+					for j, x := range svs {
+						if x == sv {
+							bodies[b] = append(append([]uint64{}, svs[:j]...), svs[j+1:]...)
+						}
+					}
+				}
+				for j := 0; j < 1+rng.Intn(3); j++ {
+					nn := uint64(rng.Pick(1, 1, 2, 3, 41))
+					c.Evs = append(c.Evs, ev{K: "alloc", N: nn})
+				}
+			}
+		case 14:
+			if bs := live(); len(bs) >= 1 {
+				old := bs[rng.Intn(len(bs))]
+				nw := chosen()
+				c.Evs = append(c.Evs, ev{K: "renumber", Ls: []uint64{nw, old}}, ev{K: "alloc", N: uint64(1 + rng.Intn(45))})
+				bodies[nw] = bodies[old]
+				delete(bodies, old)
+				order = append(order, nw)
+			}
 		case 0, 1, 2:
 			c.Evs = append(c.Evs, ev{K: "alloc", N: uint64(rng.Pick(1, 1, 2, 5, 0, 17))})
 		case 3:
@@ -840,6 +1044,8 @@ func genLabelsEdge(rng *lib.Rand) jcase {
 	return c
 }
 
+func pickS(r *lib.Rand, xs ...string) string { return xs[r.Intn(len(xs))] }
+
 func genIDs(rng *lib.Rand) jcase {
 	c := jcase{Kind: "ids", Evs: []ev{{K: "newrepo"}}}
 	// half of the histories run with a configured first instance id, as a server with
@@ -849,7 +1055,17 @@ func genIDs(rng *lib.Rand) jcase {
 	}
 	n := 8 + rng.Intn(8)
 	for i := 0; i < n; i++ {
-		switch rng.Intn(9) {
+		switch rng.Intn(11) {
+		case 9, 10:
+			// a repo of 1, 2, 3 or more versions arrives by push, the server stops (killed or not) before it
+			// issues anything else, and then issues ids of every kind
+			c.Evs = append(c.Evs, ev{K: "receive", N: uint64(rng.Pick(1, 1, 2, 3, 0)), W: rng.Intn(3)})
+			if rng.Bool() {
+				c.Evs = append(c.Evs, ev{K: "crash"})
+			} else {
+				c.Evs = append(c.Evs, ev{K: "quit"})
+			}
+			c.Evs = append(c.Evs, ev{K: "restart"}, ev{K: pickS(rng, "newversion", "newrepo", "newdata")}, ev{K: "newrepo"})
 		case 0:
 			c.Evs = append(c.Evs, ev{K: "newrepo"})
 		case 1, 2, 3:
@@ -916,6 +1132,16 @@ func main() {
 		{K: "crash"}, {K: "restartcrash", After: false}, {K: "restart"}, {K: "alloc", N: 100}, {K: "alloccrash", After: false}, {K: "restart"}, {K: "alloc", N: 2}}})
 	dispatch(jcase{Kind: "labels", Evs: []ev{{K: "alloc", N: 5}, {K: "ingest", BMs: []uint64{1000}}, {K: "alloc", N: 1}, {K: "crash"}, {K: "restart"},
 		{K: "alloc", N: 2}, {K: "alloccrash", N: 3, W: 1}, {K: "restart"}, {K: "alloc", N: 1}, {K: "setmax", N: 5000}, {K: "alloc", N: 1}}})
+	// labels chosen by the caller of a supervoxel split (split / remain, each alone, both, neither) and of a
+	// renumber, each followed by allocations that would reach the chosen label if it were not counted
+	dispatch(jcase{Kind: "labels", Evs: []ev{{K: "ingest", BMs: []uint64{10, 20, 30, 40, 50}}, {K: "alloc", N: 1},
+		{K: "splitsv", Ls: []uint64{10, 0, 0}}, {K: "alloc", N: 1},
+		{K: "splitsv", Ls: []uint64{20, 70, 0}}, {K: "alloc", N: 3}, {K: "alloc", N: 20},
+		{K: "splitsv", Ls: []uint64{30, 0, 120}}, {K: "alloc", N: 3}, {K: "alloc", N: 30},
+		{K: "newchild"},
+		{K: "splitsv", Ls: []uint64{40, 200, 180}}, {K: "alloc", N: 10}, {K: "alloc", N: 30},
+		{K: "renumber", Ls: []uint64{300, 50}}, {K: "alloc", N: 2}, {K: "alloc", N: 60},
+		{K: "crash"}, {K: "restart"}, {K: "alloc", N: 2}}})
 	dispatch(jcase{Kind: "labels", Evs: []ev{{K: "crash"}, {K: "restart"}, {K: "alloc", N: 1}}}) // reload of an instance that never persisted a label
 	// label volumes over several versions: mutations at a fresh child, then an allocation there
 	dispatch(jcase{Kind: "labels", Evs: []ev{{K: "ingest", BMs: []uint64{10, 20, 100}}, {K: "alloc", N: 1}, {K: "newchild"},
@@ -933,6 +1159,13 @@ func main() {
 	dispatch(jcase{Kind: "ids", InstStart: 100, Evs: []ev{{K: "newrepo"}, {K: "newdata"}, {K: "newdata"}, {K: "newdata"}, {K: "deldata"},
 		{K: "crash"}, {K: "restart"}, {K: "newdata"}, {K: "deldata"}, {K: "deldata"}, {K: "crash"}, {K: "restart", Start: 50}, {K: "newdata"},
 		{K: "crash"}, {K: "restart", Start: 400}, {K: "newdata"}, {K: "crash"}, {K: "restart"}, {K: "newdata"}}})
+	// repos of one, two and three versions received by push; the server stops before it issues anything
+	// else (killed / shut down), then issues version, repo and instance ids
+	dispatch(jcase{Kind: "ids", Evs: []ev{{K: "newrepo"}, {K: "newdata"}, {K: "receive", N: 1}, {K: "crash"}, {K: "restart"}, {K: "newrepo"}, {K: "newdata"},
+		{K: "newversion"}, {K: "receive", N: 2, W: 1}, {K: "quit"}, {K: "restart"}, {K: "newversion"}, {K: "newrepo"},
+		{K: "newversion"}, {K: "receive", N: 3, W: 2}, {K: "crash"}, {K: "restart"}, {K: "newdata"}, {K: "newversion"}, {K: "newrepo"}}})
+	dispatch(jcase{Kind: "ids", Evs: []ev{{K: "newrepo"}, {K: "receive", N: 1}, {K: "quit"}, {K: "restart"}, {K: "newversion"}, {K: "newrepo"},
+		{K: "receive", N: 1}, {K: "crash"}, {K: "restart"}, {K: "newdata"}, {K: "newrepo"}}})
 	nm, nl, ni, rounds := 3, 3, 3, 30
 	if o.Thorough() {
 		nm, nl, ni, rounds = 25, 25, 25, 300
